@@ -161,8 +161,14 @@ def run_case(case, obs):
         # area
         try:
             a0, a1 = region.area, rr.area
-            obs.check(abs(a1 - a0) <= 1e-12 * abs(a0) + (1e-9 * abs(a0) if 'Polygon' in type(region).__name__ else 0),
-                      'rotate-area-changed', f'area {a0!r} -> {a1!r}', 'rot-area')
+            tol_a = 1e-12 * abs(a0)
+            if 'Polygon' in type(region).__name__:
+                # polygon areas are computed from the (rotated, hence re-rounded) vertices: each vertex moves by up to
+                # eps * (largest coordinate involved), which changes the area by at most that times the perimeter
+                nv = len(region.vertices.x)
+                cmax = abs(cx) + abs(cy) + abs(pv[0]) + abs(pv[1]) + 2 * math.hypot(cx - pv[0], cy - pv[1]) + 2 * L
+                tol_a += 64 * geom.EPS64 * cmax * (2 * L * nv) * (1 + abs(th) * 1e-3) + 1e-9 * abs(a0) * 0
+            obs.check(abs(a1 - a0) <= tol_a, 'rotate-area-changed', f'area {a0!r} -> {a1!r} (tolerance {tol_a:.3g})', 'rot-area')
         except NotImplementedError:
             pass
         # membership follows the rotation
